@@ -950,6 +950,98 @@ fn admin_rpcs_not_rate_limited() -> bool {
     inserts_ok < 10 && (admitted_flush as f64) > bound
 }
 
+// F-C13-f  (C13, C10)  one flipped bit in a DIGIT of tenants.json (the tenant -> index map in the data directory) after a clean stop:
+//                 {"tenant_a": 0, "tenant_b": 1} becomes {"tenant_a": 0, "tenant_b": 0}; the map is loaded without any check, both tenants now
+//                 share index 0 and tenant B reads (and can delete) tenant A's documents
+fn tenant_map_digit_flip() -> bool {
+    use kyrodb_engine::proto::kyro_db_service_client::KyroDbServiceClient;
+    use kyrodb_engine::proto::{InsertRequest, QueryRequest};
+    use std::time::{Duration, Instant};
+    const KEY_A: &str = "kyro_tenant_a_aaaaaaaaaaaaaaaaaaaaaaaaaaaaaaaa";
+    const KEY_B: &str = "kyro_tenant_b_bbbbbbbbbbbbbbbbbbbbbbbbbbbbbbbb";
+    let bin = c10_server_binary();
+    let tmp = tempfile::tempdir().unwrap();
+    let data_dir = tmp.path().join("data");
+    std::fs::create_dir_all(&data_dir).unwrap();
+    let keys_path = tmp.path().join("api_keys.yaml");
+    let mut keys = String::from("api_keys:\n");
+    for (k, t) in [(KEY_A, "tenant_a"), (KEY_B, "tenant_b")] {
+        keys += &format!("  - key: {k}\n    tenant_id: {t}\n    tenant_name: {t}\n    max_qps: 100000\n    max_vectors: 10000\n    enabled: true\n    created_at: \"2025-01-01T00:00:00Z\"\n");
+    }
+    std::fs::write(&keys_path, keys).unwrap();
+    let logp = tmp.path().join("server.log");
+    let spawn = |port: u16, http_port: u16| {
+        let log = std::fs::OpenOptions::new().create(true).append(true).open(&logp).unwrap();
+        KillOnDrop(std::process::Command::new(&bin)
+            .env("KYRODB_DATA_DIR", &data_dir)
+            .env("KYRODB_PORT", port.to_string())
+            .env("KYRODB__SERVER__HTTP_PORT", http_port.to_string())
+            .env("KYRODB__AUTH__ENABLED", "true")
+            .env("KYRODB__AUTH__API_KEYS_FILE", &keys_path)
+            .env("KYRODB__HNSW__DIMENSION", "8")
+            .env("KYRODB__HNSW__MAX_ELEMENTS", "1000")
+            .stdout(std::process::Stdio::null())
+            .stderr(log)
+            .spawn()
+            .unwrap_or_else(|e| panic!("cannot spawn {}: {e}", bin.display())))
+    };
+    let rt = tokio::runtime::Builder::new_multi_thread().worker_threads(2).enable_all().build().unwrap();
+    async fn connect(server: &mut KillOnDrop, endpoint: String) -> Option<kyrodb_engine::proto::kyro_db_service_client::KyroDbServiceClient<tonic::transport::Channel>> {
+        let deadline = Instant::now() + Duration::from_secs(60);
+        loop {
+            match KyroDbServiceClient::connect(endpoint.clone()).await {
+                Ok(c) => return Some(c),
+                Err(e) => {
+                    if let Ok(Some(_)) = server.0.try_wait() { return None; }
+                    assert!(Instant::now() < deadline, "server did not come up: {e}");
+                    tokio::time::sleep(Duration::from_millis(100)).await;
+                }
+            }
+        }
+    }
+    // run 1: tenant A stores document 1; tenant B cannot see it
+    let (port, http_port) = (c10_port(), c10_port());
+    let mut server = spawn(port, http_port);
+    let b_sees_before = rt.block_on(async {
+        let mut client = connect(&mut server, format!("http://127.0.0.1:{port}")).await.expect("first start");
+        let r = client.insert(c10_keyed(KEY_A, InsertRequest { doc_id: 1, embedding: c10_vec(1.0, 0.5), metadata: HashMap::new(), namespace: String::new() })).await.expect("insert rpc");
+        assert!(r.get_ref().success, "insert failed: {}", r.get_ref().error);
+        client.query(c10_keyed(KEY_B, QueryRequest { doc_id: 1, include_embedding: false, namespace: String::new() })).await.expect("query rpc").get_ref().found
+    });
+    unsafe { libc::kill(server.0.id() as i32, libc::SIGTERM); }
+    let t0 = Instant::now();
+    while server.0.try_wait().ok().flatten().is_none() && t0.elapsed() < Duration::from_secs(20) { std::thread::sleep(Duration::from_millis(50)); }
+    drop(server);
+    // the single fault: the digit of tenant_b's index, '1' (0x31) -> '0' (0x30)
+    let mp = data_dir.join("tenants.json");
+    let mut bytes = std::fs::read(&mp).unwrap();
+    let text = String::from_utf8(bytes.clone()).unwrap();
+    println!("  run 1: A inserted doc 1; B's Query(1) found={b_sees_before}; tenants.json = {}", text.replace('\n', " "));
+    let key_pos = text.find("\"tenant_b\"").expect("tenant_b in map");
+    let digit = key_pos + text[key_pos..].find(|c: char| c.is_ascii_digit()).expect("index digit");
+    if bytes[digit] != b'1' { println!("  tenant_b does not have index 1 here: nothing to decide"); return false; }
+    bytes[digit] ^= 0x01;
+    std::fs::write(&mp, &bytes).unwrap();
+    println!("  fault: tenants.json = {}", String::from_utf8_lossy(&bytes).replace('\n', " "));
+    // run 2
+    let (port, http_port) = (c10_port(), c10_port());
+    let mut server = spawn(port, http_port);
+    let verdict = rt.block_on(async {
+        match connect(&mut server, format!("http://127.0.0.1:{port}")).await {
+            None => { println!("  run 2: the server refused to start"); false }
+            Some(mut client) => {
+                let b = client.query(c10_keyed(KEY_B, QueryRequest { doc_id: 1, include_embedding: false, namespace: String::new() })).await.expect("query rpc").get_ref().found;
+                println!("  run 2: the server STARTED; tenant B's Query(1) found={b} (B never stored a document)");
+                b
+            }
+        }
+    });
+    drop(rt);
+    let _ = server.0.kill();
+    let _ = server.0.wait();
+    !b_sees_before && verdict
+}
+
 fn main() {
     let which = std::env::args().nth(1).unwrap_or_else(|| "all".to_string());
     if which == "F-C01-a-child" {
@@ -980,6 +1072,7 @@ fn main() {
         ("F-C13-b", Box::new(truncated_older_segment)),
         ("F-C13-d", Box::new(manifest_removed_server_starts_empty)),
         ("F-C19-a", Box::new(admin_rpcs_not_rate_limited)),
+        ("F-C13-f", Box::new(tenant_map_digit_flip)),
         ("F-C13-e", Box::new(length_flip_reads_as_torn_tail)),
         ("F-C13-c.snapshot", Box::new(|| manifest_key_flip("latest_snapshot"))),
         ("F-C13-c.segments", Box::new(|| manifest_key_flip("wal_segments"))),
